@@ -5,7 +5,7 @@
    [observed], [gmean], [gstd], [cfilled] (proofs/C13_DistP.v, model/C13_Normalize.v); [zrot_spec], [row_ok],
    [row_nondegenerate], [coplanar], [sim3], [is_rotation], [rot3] (proofs/C13_Norm3dAlg.v, C13_Norm3dT.v, C13_Norm3dW.v). *)
 From Coq Require Import Reals List.
-Require Import Result Num C13_Normalize C13_Norm3d C13_Lookup Gen_C13.
+Require Import Result Tensor Num C13_Normalize C13_Norm3d C13_Lookup Gen_C13.
 Require Import C13_Axes C13_AxesP.
 Require Import C13_RBase C13_NormalizeP C13_DistP C13_Norm3dP C13_Norm3dAlg C13_Norm3dT C13_Norm3dW C13_LookupP C13_Examples C13_GenTie.
 Import ListNotations.
@@ -61,6 +61,34 @@ Theorem unnormalize_inverse : forall (key : nat -> nat) (G : nat), (forall i, (k
   cfilled R_ops (unnormalize_distribution R_ops key (fst (snd r)) (snd (snd r)) (fst r)) = cfilled R_ops cs.
 Proof. exact C13_DistP.unnormalize_inverse. Qed.
 Print Assumptions unnormalize_inverse.
+
+(* the same three statements for the actual arguments of normalize_distribution(axis = the first k axes) on a body of
+   shape [shape]: grouping ([gkey_of]) and numpy / tf broadcasting ([bkey_of]) computed from shape and axis *)
+Theorem leading_block_keys : forall (shape : list nat) (k i : nat), (k <= length shape)%nat -> (i < Tensor.prod shape)%nat ->
+  gkey_of shape (seq 0 k) i = Nat.modulo i (Tensor.prod (skipn k shape)) /\
+  bkey_of shape (seq 0 k) i = Nat.modulo i (Tensor.prod (skipn k shape)) /\
+  groups_of shape (seq 0 k) = Tensor.prod (skipn k shape).
+Proof. exact C13_AxesP.leading_block_keys. Qed.
+Print Assumptions leading_block_keys.
+Theorem distribution_post_leading : forall (shape : list nat) (k : nat) (cs : list (cell R_ops)),
+  (k <= length shape)%nat -> length cs = Tensor.prod shape -> forall g : nat,
+  observed (gkey_of shape (seq 0 k)) cs g -> gstd R_ops (gkey_of shape (seq 0 k)) cs g <> 0 ->
+  let out := fst (normalize_distribution R_ops (gkey_of shape (seq 0 k)) (bkey_of shape (seq 0 k)) (groups_of shape (seq 0 k)) cs) in
+  gmean R_ops (gkey_of shape (seq 0 k)) out g = 0 /\ gstd R_ops (gkey_of shape (seq 0 k)) out g = 1.
+Proof. exact C13_AxesP.distribution_post_leading. Qed.
+Print Assumptions distribution_post_leading.
+Theorem distribution_mask_unchanged_leading : forall (shape : list nat) (k : nat) (cs : list (cell R_ops)),
+  (k <= length shape)%nat -> length cs = Tensor.prod shape ->
+  map cm (fst (normalize_distribution R_ops (gkey_of shape (seq 0 k)) (bkey_of shape (seq 0 k)) (groups_of shape (seq 0 k)) cs)) = map cm cs.
+Proof. exact C13_AxesP.distribution_mask_unchanged_leading. Qed.
+Print Assumptions distribution_mask_unchanged_leading.
+Theorem unnormalize_inverse_leading : forall (shape : list nat) (k : nat) (cs : list (cell R_ops)),
+  (k <= length shape)%nat -> length cs = Tensor.prod shape ->
+  (forall g, observed (gkey_of shape (seq 0 k)) cs g -> gstd R_ops (gkey_of shape (seq 0 k)) cs g <> 0) ->
+  let r := normalize_distribution R_ops (gkey_of shape (seq 0 k)) (bkey_of shape (seq 0 k)) (groups_of shape (seq 0 k)) cs in
+  cfilled R_ops (unnormalize_distribution R_ops (bkey_of shape (seq 0 k)) (fst (snd r)) (snd (snd r)) (fst r)) = cfilled R_ops cs.
+Proof. exact C13_AxesP.unnormalize_inverse_leading. Qed.
+Print Assumptions unnormalize_inverse_leading.
 
 (* REFUTED for axis tuples that are not a leading block of axes: the returned statistics (no keepdims) are broadcast
    right-aligned against the wrong axes.  Shape (2, 2, 1, 1), axis = (1,): every group is observed with non-zero
